@@ -154,6 +154,8 @@ def ev(node, ctx):
         return ev_chain(node[1], None, ctx)
     if t == "pow":
         base = ev(node[2], ctx)
+        if not isinstance(node[3], int):
+            raise ExpectReject(f"exponent {node[3]!r} is not a positive integer literal")
         return power(base, node[3])
     if t == "bin":
         L = ev(node[2], ctx)
@@ -482,7 +484,10 @@ class Gen:
         r = self.rng.random()
         if r < 0.18:
             base = ["paren", self.sumchain(d - 1, small=True)] if self.rng.random() < 0.8 else ["name", self.rng.choice(self.names)]
-            return ["pow", self.rng.choice(["**", "^"]), base, self.rng.choice([1, 2, 2, 3])]
+            r2 = self.rng.random()
+            if r2 < 0.06:  # exponents outside the grammar: must be rejected, never silently reinterpreted
+                return ["pow", self.rng.choice(["**", "^"]), base, self.rng.choice(["(1+2)", "(2+1)", "b", "2.0", "(0)", "00", "1.5", "(a)", "(2:1)"])]
+            return ["pow", self.rng.choice(["**", "^"]), base, self.rng.choice([1, 2, 2, 3]), "paren" if r2 < 0.2 else "plain"]
         op = self.rng.choice([":", ":", "*", "/", "%in%"])
         left = self.prod(d - 1)
         right = self.prod(d - 1)
@@ -535,7 +540,7 @@ def fix_structure(node):
         base = fix_structure(node[2])
         if base[0] not in ("paren", "name"):
             base = wrap(base)
-        return ["pow", node[1], base, node[3]]
+        return ["pow", node[1], base, *node[3:]]
     return node
 
 
@@ -562,7 +567,10 @@ def render(node, rng):
     if t == "paren":
         return "(" + sp(rng) + render_chain(node[1], rng) + sp(rng) + ")"
     if t == "pow":
-        return render(node[2], rng) + sp(rng) + node[1] + sp(rng) + str(node[3])
+        expo = str(node[3])
+        if isinstance(node[3], int) and len(node) > 4 and node[4] == "paren":
+            expo = "(" + sp(rng) + expo + sp(rng) + ")"
+        return render(node[2], rng) + sp(rng) + node[1] + sp(rng) + expo
     if t == "bin":
         op = node[1]
         gap_l = " " if op == "%in%" and node[2][0] in ("name", "scaled", "one") else sp(rng)
